@@ -12,6 +12,7 @@ Three execution modes share one harness function `fn(ctx)`:
 import math
 import time
 import os
+import sys
 from fractions import Fraction
 
 import numpy as np
@@ -307,28 +308,36 @@ class Ctx:
         return out
 
 
+_CVC5 = {"proc": None}
+
+
 def _cvc5_verdict(smt2, tlimit_ms=5000):
-    """second opinion on the SMT-LIB2 dump of a query (thorough tier)"""
+    """second opinion on the SMT-LIB2 dump of a query (thorough tier), from a worker process under a hard wall-clock limit"""
+    import select
+    import subprocess
     try:
-        import cvc5
-        slv = cvc5.Solver()
-        slv.setOption("tlimit-per", str(tlimit_ms))
-        slv.setLogic("QF_NRA")
-        ip = cvc5.InputParser(slv)
-        ip.setStringInput(cvc5.InputLanguage.SMT_LIB_2_6, smt2, "q")
-        sm = ip.getSymbolManager()
-        res = "unknown"
-        while True:
-            cmd = ip.nextCommand()
-            if cmd.isNull():
-                break
-            out = str(cmd.invoke(slv, sm)).strip()
-            if out in ("sat", "unsat", "unknown"):
-                res = out
-            elif "error" in out.lower():
-                return "error"
-        return res
-    except Exception as e:      # noqa
+        p = _CVC5["proc"]
+        if p is None or p.poll() is not None:
+            p = subprocess.Popen([sys.executable, "-m", "symx.cvc5_worker"], stdin=subprocess.PIPE, stdout=subprocess.PIPE,
+                                 cwd=os.path.dirname(os.path.dirname(os.path.abspath(__file__))))
+            _CVC5["proc"] = p
+        data = smt2.encode()
+        p.stdin.write(b"%010d%06d" % (len(data), tlimit_ms) + data)
+        p.stdin.flush()
+        ready, _, _ = select.select([p.stdout], [], [], tlimit_ms / 1000.0 + 3.0)
+        if not ready:
+            p.kill()
+            _CVC5["proc"] = None
+            return "unknown"
+        line = p.stdout.readline().decode().strip()
+        return line if line in ("sat", "unsat", "unknown", "error") else "error"
+    except Exception:      # noqa
+        try:
+            if _CVC5["proc"] is not None:
+                _CVC5["proc"].kill()
+        except Exception:      # noqa
+            pass
+        _CVC5["proc"] = None
         return "error"
 
 
